@@ -29,6 +29,7 @@ func TestMain(m *testing.M) { vlib.Main(m, "C05"); os.Exit(0) }
 //	append                           AppendColumns of one column        (aligned kinds)
 //	delete                           Delete(r)                          (alignment, multi; rows >= 2)
 //	row-setoffset                    Row(r).SetOffset(o)                (multi rows / linear)
+//	setoffset                        SetOffset(o) on the container itself (all but multi.Set)
 type op struct {
 	Kind   string `json:"kind"`
 	Target int    `json:"target"`
@@ -120,7 +121,7 @@ func gen(t *rapid.T) algebraCase {
 	n := rapid.IntRange(1, 6).Draw(t, "nops")
 	cloned := false
 	for i := 0; i < n; i++ {
-		pool := []string{"revcomp", "revcomp", "reverse", "clone", "set", "row-revcomp", "row-reverse", "append", "delete", "row-setoffset"}
+		pool := []string{"revcomp", "revcomp", "reverse", "clone", "set", "row-revcomp", "row-reverse", "append", "delete", "row-setoffset", "setoffset"}
 		o := op{Kind: rapid.SampledFrom(pool).Draw(t, "op"), Row: rapid.IntRange(0, 6).Draw(t, "row"), Pos: rapid.IntRange(0, 60).Draw(t, "pos"),
 			Letter: rapid.IntRange(0, 40).Draw(t, "letter"), Q: rapid.IntRange(0, 93).Draw(t, "q"), Off: rapid.IntRange(-5, 30).Draw(t, "off")}
 		if o.Kind == "clone" {
@@ -338,6 +339,29 @@ func check(c algebraCase) *vlib.Failure {
 			}
 			obj.Delete(o.Row % nrows)
 			resync(obj, mdl)
+		case "setoffset":
+			// the container is moved as a whole: the same call on a fresh clone has the same effect, no letter
+			// changes, and the rows of a multi (the only container whose rows carry positions of their
+			// own in the snapshot) all move by the same amount
+			before := obj.Observe()
+			probe := obj.Clone()
+			if !obj.SetOffset(o.Off) {
+				continue
+			}
+			probe.SetOffset(o.Off)
+			after := obj.Observe()
+			if e := sm.SameSnapshot(after, probe.Observe()); e != nil {
+				return fail("setoffset-on-clone-differs", e, fmt.Sprintf("%s: SetOffset(%d) on a fresh clone and on the original give different containers", ctx, o.Off))
+			}
+			for j := range before.Rows {
+				if j >= len(after.Rows) || after.Rows[j].L != before.Rows[j].L {
+					return vlib.Failf("setoffset-letters", "%s: SetOffset(%d) changed the letters of row %d", ctx, o.Off, j)
+				}
+				if d, d0 := after.Rows[j].Offset-before.Rows[j].Offset, after.Rows[0].Offset-before.Rows[0].Offset; d != d0 {
+					return vlib.Failf("setoffset-rows", "%s: SetOffset(%d) moved row 0 by %d and row %d by %d", ctx, o.Off, d0, j, d)
+				}
+			}
+			resync(obj, mdl)
 		case "row-setoffset":
 			// (on a row of a column-stored alignment this moves the row's own annotation only: the
 			// letters stay addressed through the alignment's coordinates)
@@ -403,6 +427,15 @@ func classes(c algebraCase) []string {
 		if o.Kind == "revcomp" {
 			hasRC = true
 		}
+	}
+	moves := 0
+	for _, o := range c.Ops {
+		if o.Kind == "setoffset" && o.Off != 0 {
+			moves++
+		}
+	}
+	if moves >= 2 && c.Spec.IsMulti() {
+		l = append(l, "multi-moved-more-than-once")
 	}
 	if ragged {
 		l = append(l, "ragged-rows")
